@@ -410,12 +410,12 @@ type RCase struct {
 	// filled by run
 	ShapeDiffs []string
 	Mutated    []string
-	GoRes  []string
-	Panic  string
-	PErr   string
-	Dumps  []string
-	Req    string
-	Answer string
+	GoRes      []string
+	Panic      string
+	PErr       string
+	Dumps      []string
+	Req        string
+	Answer     string
 }
 
 const sessFuel = 1200
